@@ -25,10 +25,10 @@ def _func_span(text, fname):
 
 
 class FoldUnit:
-    def __init__(self, src, config='host'):
+    def __init__(self, src, config='host', unit=None):
         self.src = src
         self.config = config
-        self.unit = build.load_unit(src, 'm2r', config, hooks=False)
+        self.unit = unit if unit is not None else build.load_unit(src, 'm2r', config, hooks=False)
         self.text = open(self.unit['_ll']).read()
         # clang -O0 marks every function noinline; the hypothesis must propagate through static helpers
         self.text = re.sub(r'^(attributes #\d+ = \{[^\n]*?) noinline', r'\1', self.text, flags=re.M)
